@@ -152,7 +152,8 @@ class C06(Check):
     rule = ("bounded-exhaustive over the printable fragment: every constructor shape with every "
             "leaf combination incl. negative / non-integer / boolean constants (depth2), every "
             "(parent, position, child) nesting (nest2), every three-level chain (nest3; quick: "
-            "15 representative shapes, thorough: the whole fragment). Each tree is printed, "
+            "15 representative shapes, thorough: the whole fragment), every (grandparent, position) x binary "
+            "parent with BOTH operands composite over 6 (quick) / 15 (thorough) shapes. Each tree is printed, "
             "parsed, compared after Sum/Product flattening with strict constant types, "
             "re-printed. Non-trivial = the printed text contains an operator or bracket, "
             "distinct = distinct printed texts.")
@@ -171,6 +172,7 @@ class C06(Check):
             ("nest2", lambda: (("t", s) for _, s in gen.nest2(PRINTABLE, PRINTABLE))),
             ("nest2-negconst", self.gen_negconst),
         ]
+        fams.append(("bushy", lambda: (("t", s) for s in self.gen_bushy(tier))))
         if tier == "quick":
             fams.append(("nest3", lambda: (("t", s) for _, s in
                                            gen.nest3(REDUCED14, REDUCED14, REDUCED14))))
@@ -178,6 +180,27 @@ class C06(Check):
             fams.append(("nest3", lambda: (("t", s) for _, s in
                                            gen.nest3(PRINTABLE, PRINTABLE, PRINTABLE))))
         return fams
+
+    BUSHY_Q = ("Sum2", "Product2", "Quotient", "FloorDiv", "Power", "Call1")
+    BUSHY_T = ("Sum2", "Product2", "Quotient", "FloorDiv", "Remainder", "Power", "LeftShift",
+               "BitwiseAnd2", "BitwiseOr2", "Cmp<", "LogicalOr2", "Call1", "BitwiseNot",
+               "LogicalNot", "Subscript")
+
+    def gen_bushy(self, tier):
+        """(grandparent, position) x binary parent whose BOTH operands are composite: the middle
+        node is printed between two parenthesised / call-terminated operands."""
+        names = self.BUSHY_Q if tier == "quick" else self.BUSHY_T
+        cs = [c for c in PRINTABLE if c.name in names]
+        binary = [c for c in cs if c.slots == ("e", "e") or c.slots == ("b", "b")]
+        kids = [c(*gen.fill_slots(c, None, i)) for i, c in enumerate(cs)]
+        for gp in cs:
+            for pos in range(len(gp.slots)):
+                for par in binary:
+                    for k1 in kids:
+                        for k2 in kids:
+                            ch = gen.fill_slots(gp, None, 2)
+                            ch[pos] = par(k1, k2)
+                            yield gp(*ch)
 
     def gen_negconst(self):
         # every (parent, position) with a negative / fractional / boolean constant child and with
